@@ -499,8 +499,11 @@ func targets() []*target {
 				"IsAllBitsSet": {pure: "(Z.land g_flags %0 =? %0)"},
 				"Logger.Level": {pure: "f_level %r"},
 				"GetLevel":     {pure: "g_deflevel"},
+				// what the logger answers at CONSTRUCTION time (its gate, its skip count): oracles nothing is known about
+				"Logger.Enabled": {pure: "f_cEnabled %r %0"},
+				"Logger.Skip":    {pure: "f_cSkip %r"},
 			},
-			params: []string{"(f_level : Z -> Z)", "(g_flags g_deflevel : Z)", "(h : Z)", "(lvl : Z)"}, result: "bridge", final: "BridgeNone"},
+			params: []string{"(f_level : Z -> Z)", "(f_cEnabled : Z -> Z -> bool)", "(f_cSkip : Z -> Z)", "(g_flags g_deflevel : Z)", "(h : Z)", "(lvl : Z)"}, result: "bridge", final: "BridgeNone"},
 		// handlerWriter.Write whole: the logger is asked at WRITE time, the program counter is taken at depth 4 plus the
 		// skip counts iff capturePC, the bytes go to WriteInternal at the bridge severity
 		{pkg: slogPkg, recv: "handlerWriter", fn: "Write", coq: "bridge_write", file: "Bridge", strict: true, fallback: "BridgeRef.bridge_write_ref",
@@ -515,6 +518,21 @@ func targets() []*target {
 			params: []string{"(f_enabled : Z -> Z -> bool)", "(f_skip : Z -> Z)", "(f_getpc : Z -> Z -> Z)", "(as_LogLoggerAware_of_Logger : Z -> option Z)", "(w_n : Z)", "(w_e : option unit)",
 				"(s_l s_lvl : Z)", "(s_capturePC : bool)", "(s_extraFrames : Z)", "(buf : bytes)", "(tr_ : list bwev)"},
 			result: "Z * option unit * list bwev", final: "(n, err, tr_)"},
+
+		// Entry.writeInternal (what the bridge's Write ends in): ONE final line feed is taken off, the whole length is
+		// reported, the rest is printed as the message at the given level, instant and pc, without attributes
+		{pkg: slogPkg, recv: "Entry", fn: "writeInternal", coq: "write_internal", file: "Bridge", strict: true, fallback: "BridgeRef.write_internal_ref",
+			comment: "(returns (n, err, trace of print calls); None = a range panic)", panicT: "None", retfmt: "Some (%s)", effects: []string{"tr_"},
+			tymap: map[string]string{"uintptr": "Z", "[]byte": "bytes", "error": "option unit", "time.Time": "Z", "Attrs": "list Z"},
+			calls: map[string]callSpec{
+				"time.Now":     {pure: "g_now"},
+				"*Entry.print": {ev: "BWPrint %1 %2 %3 %4", lazy: true},
+				// other ways to trim: oracles nothing is known about
+				"strings.TrimRight": {pure: "f_trimRight %0 %1"}, "strings.TrimSuffix": {pure: "f_trimSuffix %0 %1"},
+				"bytes.TrimRight": {pure: "f_trimRight %0 %1"}, "bytes.TrimSuffix": {pure: "f_trimSuffix %0 %1"},
+			},
+			params: []string{"(f_trimRight f_trimSuffix : bytes -> bytes -> bytes)", "(g_now : Z)", "(lvl stackFrame : Z)", "(buf : bytes)", "(tr_ : list bwev)"},
+			result: "option (Z * option unit * list bwev)", final: "Some (n, err, tr_)"},
 
 		// ---- the buffer methods of PrintCtx (C19) ----
 		bufT("empty", "buf_empty", nil, "bool", "false", false),
